@@ -19,6 +19,10 @@ func init() {
 }
 
 func runC20(c *Ctx) {
+	defer func() {
+		c.shared("R6", "C08/R1", "only genuinely nested calls count towards the limit, and everything up to the limit works: every push of a frame is matched by a pop on every continuing path (a leaked frame turns a long loop of calls into a spurious `stack overflow`)", keyHas("balance ", "primitive"), func(s *Ctx) { c08R1(s, discoverFrameModel(s.P)) })
+		c.shared("R7", "C15/R4", "the array-size limit is applied to the index actually used: the resolved index is the integer conversion of the number (or len+index), so the test against the maximum sees the same value the fill loop runs to", keyHas("resolve-", "fill-loop-bound"), func(s *Ctx) { indexResolution(s, "R4") })
+	}()
 	p := c.P
 	m := discoverFrameModel(p)
 	c.note("R1 call-depth-limit: the depth test of the push primitive (C08/R3) + the limit variable's initialiser is a constant in [1001, 65536] and the variable is never stored afterwards + the push primitive is the only function that installs a frame (who-stores Evaluator.stackTop) + in callFunction's user-function arm and in the match arm the push call dominates every evaluation of the body + the error of the push is wrapped by Evaluator.error at both sites.")
